@@ -468,11 +468,8 @@ impl Run {
             Stmt::Update(c, _) | Stmt::Delete(c) => {
                 let ids = self.m.tabs[t].matching(c);
                 let (bh, brows) = self.m.tabs[t].blockers(me, &ids);
-                if bh.is_empty() && self.m.tabs[t].touches_foreign_insert(me, &ids) {
-                    // rows inserted by an open transaction carry no lock in this engine; what another
-                    // statement may do to them is not what C09 states
-                    ctx.label("skip:matches-uncommitted-insert-of-other-tx");
-                    return Ok(());
+                if brows.iter().any(|id| matches!(self.m.tabs[t].rows[id].ins_by, Some(h) if Some(h) != me)) {
+                    ctx.label("statement matches a row another open transaction inserted");
                 }
                 let cond = to_condition(&self.m.tabs[t], c);
                 let r = match (stmt, eid) {
